@@ -274,6 +274,13 @@ def visit(visitor, obj, attr, cff):
             for op, args in commands:
                 if op == "vsindex":
                     continue
+                if op == "endchar" and len(args) == 4:
+                    # seac-style accent building: adx ady bchar achar, the
+                    # last two are StandardEncoding codes, not coordinates
+                    codes = args[2:]
+                    _cff_scale(visitor, args)
+                    args[2:] = codes
+                    continue
                 _cff_scale(visitor, args)
             c.program[:] = cffSpecializer.commandsToProgram(commands)
 
